@@ -76,6 +76,7 @@ type chunkRes struct {
 // child
 
 type childState struct {
+	seedAcc []bool
 	plan  *plan
 	h     *harness
 	prog  *progress
@@ -177,6 +178,20 @@ func (c *childState) runChunk(ci int, ch chunk, skip []skipKey) *chunkRes {
 	}
 	var ins []input
 	c.plan.expand(ch, func(in input) { ins = append(ins, in) })
+	c.seedAcc = nil
+	if ch.Cat == "field" {
+		// over-long re-encodings must be accepted exactly where the seed itself is
+		c.seedAcc = make([]bool, len(featureSets))
+		for f := range featureSets {
+			c.prog.set(ci, 0, f, phaseMeasure, engInterp)
+			r := c.h.compile(engInterp, f, c.plan.seeds[ch.Seed].B)
+			if r.cm != nil {
+				r.cm.Close(c.h.ctx)
+			}
+			c.seedAcc[f] = r.res == "accept"
+		}
+		c.prog.idle()
+	}
 	res.Inputs = int64(len(ins))
 	var ms0, ms1 runtime.MemStats
 	for base := 0; base < len(ins); base += memBatch {
@@ -278,7 +293,7 @@ func (c *childState) compileAll(ci, k int, in input, skipC map[[2]int]bool, res 
 						fmt.Sprintf("CompileModule (%s, %s) panicked at %s: %s", engName[engCompiler], featureSets[f].Name, rc.detail, rc.msg), in, f)
 				case "reject":
 					res.Outcomes["compiler-engine-rejects-validated-module"]++
-					if in.Valid {
+					if in.Valid && (!in.IfSeed || c.seedAcc[f]) {
 						c.addViol(res, "valid-rejected:"+validClass(in.Tag)+":compiler-engine", "by-construction-valid module rejected by the optimizing compiler: "+rc.detail, in, f)
 					}
 				case "accept":
@@ -294,7 +309,7 @@ func (c *childState) compileAll(ci, k int, in input, skipC map[[2]int]bool, res 
 				r.cm.Close(c.h.ctx)
 			}
 		}
-		if in.Valid && fsContains(f, uint64(in.Req)) {
+		if in.Valid && fsContains(f, uint64(in.Req)) && (!in.IfSeed || c.seedAcc[f]) {
 			res.ValidChecked++
 			if r.res != "accept" {
 				c.addViol(res, "valid-rejected:"+validClass(in.Tag),
